@@ -70,8 +70,8 @@ type vc12Layout struct {
 	strLens    []int // offsets of the u32 string-length fields
 	strEnds    []int
 	metaKeys   []string
-	numMeta    int // offset of the numMeta field
-	numPref    int // offset of the numPrefixes field
+	numMeta    int   // offset of the numMeta field
+	numPref    int   // offset of the numPrefixes field
 	prefOffs   []int // offsets of the u64 bucket offsets
 	headerEnd  int   // = 4 + header size
 	firstCount int   // offset of the first bucket's numHashes
@@ -284,8 +284,8 @@ func vc12Budget(in *c12h.Input) uint64 { return uint64(64*len(in.Data)) + 4<<20 
 
 func TestVerif_C12(t *testing.T) {
 	c12h.Run(t, &c12h.Part{
-		Name: "bucketteer-legacy",
-		Rule: "legacy bucketteer NewReader / Reader.Has on mutated valid files (header size, version, numMeta, string lengths, numPrefixes, prefix offsets, first bucket count; truncations, random edits, junk): no panic, allocation <= 64*len+4MiB (a valid open allocates the header and a map of one entry per 10-byte prefix record; 4 MiB covers a map pre-sized for all 65536 prefixes), no hang",
+		Name:  "bucketteer-legacy",
+		Rule:  "legacy bucketteer NewReader / Reader.Has on mutated valid files (header size, version, numMeta, string lengths, numPrefixes, prefix offsets, first bucket count; truncations, random edits, junk): no panic, allocation <= 64*len+4MiB (a valid open allocates the header and a map of one entry per 10-byte prefix record; 4 MiB covers a map pre-sized for all 65536 prefixes), no hang",
 		Seeds: vc12Seeds, Gen: vc12Gen, Exec: vc12Exec, Budget: vc12Budget,
 	})
 }
